@@ -84,9 +84,11 @@ End Model.
 (* ------------------------------------------------------------------ theorems over the reals *)
 Open Scope R_scope.
 
+Ltac rsimp := cbn [T ROps oadd osub omul odiv oneg oabs osqrt oltb oleb oeqb o0 o1 ofZ] in *.
+
 Lemma eps_pos : 0 < @eps ROps.
 Proof.
-  unfold eps, cst. cbn [ofZ odiv ROps]. apply Rdiv_lt_0_compat; apply IZR_lt; vm_compute; reflexivity.
+  unfold eps, cst. rsimp. apply Rdiv_lt_0_compat; apply IZR_lt; vm_compute; reflexivity.
 Qed.
 
 (* a sign-changing edge: exactly one end is "inside" (v < x) *)
@@ -102,22 +104,22 @@ Lemma mc_interpolate_lerp p1 p2 v1 v2 x :
   @mc_interpolate ROps p1 p2 v1 v2 x =
   mkV3 (lerp (wx p1) (wx p2) (interp_t v1 v2 x)) (lerp (wy p1) (wy p2) (interp_t v1 v2 x)) (lerp (wz p1) (wz p2) (interp_t v1 v2 x)).
 Proof.
-  unfold mc_interpolate, interp_t, lerp. destruct (interp_pick v1 v2 x); destruct p1, p2; cbn [wx wy wz]; cbn; f_equal; ring.
+  unfold mc_interpolate, interp_t, lerp. destruct (interp_pick v1 v2 x); destruct p1, p2; simpl; rsimp; f_equal; ring.
 Qed.
 Lemma ms_interpolate_lerp p1 p2 v1 v2 x :
   @ms_interpolate ROps p1 p2 v1 v2 x =
   mkV2 (lerp (vx p1) (vx p2) (interp_t v1 v2 x)) (lerp (vy p1) (vy p2) (interp_t v1 v2 x)).
 Proof.
-  unfold ms_interpolate, interp_t, lerp. destruct (interp_pick v1 v2 x); destruct p1, p2; cbn [vx vy]; cbn; f_equal; ring.
+  unfold ms_interpolate, interp_t, lerp. destruct (interp_pick v1 v2 x); destruct p1, p2; simpl; rsimp; f_equal; ring.
 Qed.
 
 Lemma half_R : @half ROps = 1 / 2.
-Proof. unfold half, two. cbn. lra. Qed.
+Proof. unfold half, two. rsimp. lra. Qed.
 
 (* t lies in [0,1]: the vertex is on the lattice edge *)
 Lemma interp_t_range v1 v2 x : straddles v1 v2 x -> 0 <= interp_t v1 v2 x <= 1.
 Proof.
-  intros S. unfold interp_t, interp_pick. cbn [oabs osub oltb odiv ROps].
+  intros S. unfold interp_t, interp_pick. rsimp.
   destruct (Rltb (Rabs (x - v1)) eps && negb (Rltb (Rabs (x - v2)) eps)); [lra|].
   destruct (Rltb (Rabs (x - v2)) eps && negb (Rltb (Rabs (x - v1)) eps)); [lra|].
   destruct (Rltb (Rabs (x - v1)) eps && Rltb (Rabs (x - v2)) eps); [rewrite half_R; lra|].
@@ -136,7 +138,7 @@ Qed.
 Lemma interp_t_value v1 v2 x : straddles v1 v2 x ->
   Rabs (lerp v1 v2 (interp_t v1 v2 x) - x) < eps.
 Proof.
-  intros S. pose proof eps_pos as E. unfold interp_t, interp_pick, lerp. cbn [oabs osub oltb odiv ROps].
+  intros S. pose proof eps_pos as E. unfold interp_t, interp_pick, lerp. rsimp.
   destruct (Rltb (Rabs (x - v1)) eps) eqn:C1; [apply Rltb_true in C1 | apply Rltb_false in C1];
   (destruct (Rltb (Rabs (x - v2)) eps) eqn:C2; [apply Rltb_true in C2 | apply Rltb_false in C2]); cbn [andb negb].
   - rewrite half_R. replace (v1 + 1 / 2 * (v2 - v1) - x) with (- ((x - v1) / 2 + (x - v2) / 2)) by field.
@@ -150,14 +152,14 @@ Qed.
 Lemma interp_t_exact v1 v2 x : v1 <> v2 -> eps <= Rabs (x - v1) -> eps <= Rabs (x - v2) ->
   lerp v1 v2 (interp_t v1 v2 x) = x.
 Proof.
-  intros D C1 C2. unfold interp_t, interp_pick, lerp. cbn [oabs osub oltb odiv ROps].
+  intros D C1 C2. unfold interp_t, interp_pick, lerp. rsimp.
   apply Rltb_false in C1, C2. rewrite C1, C2. cbn [andb negb]. field. lra.
 Qed.
 
 (* symmetry: the crossing computed from either end of the edge is the same point *)
 Lemma interp_t_sym v1 v2 x : v1 <> v2 -> interp_t v2 v1 x = 1 - interp_t v1 v2 x.
 Proof.
-  intros D. unfold interp_t, interp_pick. cbn [oabs osub oltb odiv ROps].
+  intros D. unfold interp_t, interp_pick. rsimp.
   destruct (Rltb (Rabs (x - v1)) eps), (Rltb (Rabs (x - v2)) eps); cbn [andb negb]; try rewrite half_R; try lra.
   field. split; lra.
 Qed.
@@ -188,18 +190,18 @@ Qed.
 
 (* ---- Degenerate(0) at the reals is "two vertices are the same point" *)
 Lemma tol_zero : @mc_tol ROps = 0 /\ @ms_tol ROps = 0.
-Proof. unfold mc_tol, ms_tol, cst. cbn [ofZ odiv ROps]. split; vm_compute mcDegenerateTol_num; vm_compute msDegenerateTol_num; lra. Qed.
+Proof. unfold mc_tol, ms_tol, cst. rsimp. split; vm_compute mcDegenerateTol_num; vm_compute msDegenerateTol_num; lra. Qed.
 
 Definition v3_eqbR (a b : V3 ROps) : bool := Reqb (wx a) (wx b) && Reqb (wy a) (wy b) && Reqb (wz a) (wz b).
 Definition v2_eqbR (a b : V2 ROps) : bool := Reqb (vx a) (vx b) && Reqb (vy a) (vy b).
 Lemma v3_eqbR_ok a b : v3_eqbR a b = true <-> a = b.
 Proof.
-  destruct a, b; unfold v3_eqbR; cbn [wx wy wz]. rewrite !andb_true_iff, !Reqb_true.
+  destruct a, b; unfold v3_eqbR; simpl. rewrite !andb_true_iff, !Reqb_true.
   split; [intros [[-> ->] ->]; reflexivity | intros [= -> -> ->]; auto].
 Qed.
 Lemma v2_eqbR_ok a b : v2_eqbR a b = true <-> a = b.
 Proof.
-  destruct a, b; unfold v2_eqbR; cbn [vx vy]. rewrite !andb_true_iff, !Reqb_true.
+  destruct a, b; unfold v2_eqbR; simpl. rewrite !andb_true_iff, !Reqb_true.
   split; [intros [-> ->]; reflexivity | intros [= -> ->]; auto].
 Qed.
 Lemma Rleb_abs0 a b : Rleb (Rabs (a - b)) 0 = Reqb a b.
@@ -209,6 +211,6 @@ Proof.
   - apply Rleb_false. apply Rabs_pos_lt. lra.
 Qed.
 Lemma v3_equals_zero a b : @v3_equals ROps a b 0 = v3_eqbR a b.
-Proof. unfold v3_equals, v3_eqbR. cbn [oabs osub oleb ROps]. now rewrite !Rleb_abs0. Qed.
+Proof. unfold v3_equals, v3_eqbR. rsimp. now rewrite !Rleb_abs0. Qed.
 Lemma v2_equals_zero a b : @v2_equals ROps a b 0 = v2_eqbR a b.
-Proof. unfold v2_equals, v2_eqbR. cbn [oabs osub oleb ROps]. now rewrite !Rleb_abs0. Qed.
+Proof. unfold v2_equals, v2_eqbR. rsimp. now rewrite !Rleb_abs0. Qed.
